@@ -650,8 +650,9 @@ impl VLog {
 
 		let mut max_file_id: Option<u32> = None;
 		let mut max_file_path: Option<PathBuf> = None;
-		let mut file_handles = self.file_handles.write();
+		// (same order as `cleanup_obsolete_files`: file table first, then the handles)
 		let mut files_map = self.files_map.write();
+		let mut file_handles = self.file_handles.write();
 
 		for entry in entries {
 			let entry = entry?;
@@ -696,6 +697,12 @@ impl VLog {
 				}
 			}
 		}
+
+		// The tables are complete. Give their locks back before the writer's lock is
+		// taken below: `append` nests them the other way round (writer, then the file
+		// table), and since `reload_after_restore` this function can run next to it.
+		drop(file_handles);
+		drop(files_map);
 
 		// Set next_file_id based on whether we found existing files
 		if let Some(highest_file_id) = max_file_id {
